@@ -1,6 +1,20 @@
 /-
-C15 — model of juno's key/value store contract (db/database.go, db/memory/*, db/dbutils/bound.go).
+C15 — model of juno's key/value store contract (db/database.go, db/batch.go, db/iterator.go,
+db/snapshot.go, db/memory/*, db/dbutils/bound.go).
 Core Lean only: this file is linked into the driver executable.
+
+Two implementations of one interface (`Impl`) are given:
+* `specImpl` — the contract: ordered map, batch = op log applied at `Write`, iterator = range
+  `[prefix, UpperBound(prefix))` with positions unpositioned / before / at i / after.
+  This is what the Pebble wrappers are compared against.
+* `memImpl cfg` — a transcription of `db/memory`: batch = ordered `writes` list + `writeMap`,
+  `DeleteRange` on a batch materialised at call time through an iterator over a flushed copy,
+  iterator = key list + `curInd` integer arithmetic (−1 … len(keys) and beyond).
+  `cfg` switches the four places where the code as it is today leaves the contract (see `Cfg`);
+  the harness probes the real code and tells the driver which variant it is looking at.
+
+A Go `map[string][]byte` is modelled as the canonical finite map (association list sorted by
+key), so `sort.Strings` over the collected keys is the identity in the model.
 -/
 namespace Juno.C15
 
@@ -31,5 +45,590 @@ def upperBound : Key → Option Key
     match upperBound rest with
     | some u => some (b :: u)
     | none => if b == 255 then none else some [b + 1]
+
+/-! ## Finite maps -/
+
+/-- Finite map from keys, kept sorted by key (invariant `Sorted`, proved in `Proofs`). -/
+abbrev SMap (α : Type) := List (Key × α)
+abbrev KV := SMap Val
+
+def SMap.get {α : Type} : SMap α → Key → Option α
+  | [], _ => none
+  | (k', v) :: r, k => if k' = k then some v else SMap.get r k
+
+def SMap.put {α : Type} : SMap α → Key → α → SMap α
+  | [], k, v => [(k, v)]
+  | (k', v') :: r, k, v =>
+    if lexLt k k' then (k, v) :: (k', v') :: r
+    else if k = k' then (k, v) :: r
+    else (k', v') :: SMap.put r k v
+
+def SMap.del {α : Type} (m : SMap α) (k : Key) : SMap α := m.filter (fun x => !(x.1 == k))
+
+/-- `start <= k && k < end` (start inclusive, end exclusive). -/
+def inRange (s e k : Key) : Bool := lexLe s k && lexLt k e
+
+def SMap.delRange {α : Type} (m : SMap α) (s e : Key) : SMap α := m.filter (fun x => !(inRange s e x.1))
+
+/-! ## Which variant of `db/memory` is modelled -/
+
+/-- Each flag is `false` for the code as found at the pinned commit and `true` once the
+corresponding repair (proposed-fixes/C15-*.diff) is in the tree. -/
+structure Cfg where
+  /-- `NewIterator(p, true)` with `UpperBound(p) = nil` treats the missing bound as unbounded
+  (today: compares `k < ""`, which is never true). -/
+  nilUbFix : Bool
+  /-- `NewIterator(p, _)` uses `p` as a lower bound like Pebble (today: `strings.HasPrefix`). -/
+  lowerBoundFix : Bool
+  /-- `Prev` before the first key stays invalid (today: `curInd == -1` re-runs `First`). -/
+  prevFix : Bool
+  /-- `Next` past the end stays at `len(keys)` (today: `curInd++` unconditionally). -/
+  nextClamp : Bool
+  deriving DecidableEq, Repr
+
+def Cfg.asFound : Cfg := ⟨false, false, false, false⟩
+def Cfg.repaired : Cfg := ⟨true, true, true, true⟩
+
+/-! ## Iteration bounds -/
+
+/-- Contract / Pebble: lower bound `p`, upper bound `UpperBound(p)` when requested and not nil. -/
+def specBound (p : Key) (wub : Bool) (k : Key) : Bool :=
+  lexLe p k &&
+    (match (if wub then upperBound p else none) with
+     | none => true
+     | some u => lexLt k u)
+
+/-- `db/memory/db.go` `NewIterator`: `strings.HasPrefix(k, pr) && (!withUpperBound || k < ub)` with
+`ub = string(upperBound)` (the empty string when `UpperBound` returned nil). -/
+def memBound (cfg : Cfg) (p : Key) (wub : Bool) (k : Key) : Bool :=
+  let ub : Option Key := if wub then upperBound p else none
+  let ubs : Key := ub.getD []
+  (if cfg.lowerBoundFix then lexLe p k else hasPrefix k p) &&
+    (!wub || (cfg.nilUbFix && ub.isNone) || lexLt k ubs)
+
+/-- Index of the first entry whose key is `>= t` (length of the list if there is none):
+the loop of `iterator.Seek`. -/
+def seekIdx (t : Key) : KV → Nat
+  | [] => 0
+  | (k, _) :: r => if lexLe t k then 0 else seekIdx t r + 1
+
+/-! ## Results -/
+
+/-- Result of a read or write. -/
+inductive ROut
+  | ok | notfound | val (v : Val) | bool (b : Bool) | errClosed | errCb | panic | badHandle
+  | list (xs : List (Key × Val)) | vnil | errInvalid | badOp
+  deriving DecidableEq, Repr
+
+inductive Out
+  | r (x : ROut)
+  | handle (n : Nat)
+  | size (n : Nat)
+  /-- a positioning call: returned bool, then `Valid()`/`Key()`/`Value()` -/
+  | pos (ret : Bool) (cur : Option (Key × Val))
+  /-- `Update`/`Write` helper: results of the calls made inside the callback, then the result -/
+  | upd (inner : List ROut) (res : ROut)
+  deriving DecidableEq, Repr
+
+/-! ## The interface both implementations provide -/
+
+structure Impl (B I : Type) where
+  bempty : B
+  bput : B → Key → Val → B
+  bdel : B → Key → B
+  /-- first argument: the store content at the time of the call -/
+  bdelRange : KV → B → Key → Key → B
+  bget : KV → B → Key → Option Val
+  /-- apply the batch to a store content (`Write`; also what an iterator over the batch sees) -/
+  bflush : KV → B → KV
+  bsize : B → Nat
+  imk : KV → Key → Bool → I
+  ifirst : I → I × Bool
+  inext : I → I × Bool
+  iprev : I → I × Bool
+  iseek : I → Key → I × Bool
+  icur : I → Option (Key × Val)
+  /-- `Value()` on an iterator that is not valid (outside the contract) -/
+  invalidValue : ROut
+
+/-! ## Spec -/
+
+inductive LogOp
+  | put (k : Key) (v : Val) | del (k : Key) | delRange (s e : Key)
+  deriving DecidableEq, Repr
+
+def LogOp.apply (d : KV) : LogOp → KV
+  | .put k v => d.put k v
+  | .del k => d.del k
+  | .delRange s e => d.delRange s e
+
+def applyLog (d : KV) (log : List LogOp) : KV := log.foldl LogOp.apply d
+
+def LogOp.isRange : LogOp → Bool
+  | .delRange _ _ => true
+  | _ => false
+
+/-- Spec batch: the log of operations (and the size counter of the Pebble wrapper, which does not
+count `DeleteRange`). -/
+structure SBatch where
+  log : List LogOp
+  size : Nat
+  deriving Repr
+
+inductive Pos
+  | unpos | before | at (i : Nat) | after
+  deriving DecidableEq, Repr
+
+structure SIter where
+  keys : KV
+  pos : Pos
+  deriving Repr
+
+def SIter.cur (it : SIter) : Option (Key × Val) :=
+  match it.pos with
+  | .at i => it.keys[i]?
+  | _ => none
+
+def SIter.ret (it : SIter) : SIter × Bool := (it, it.cur.isSome)
+
+def SIter.first (it : SIter) : SIter :=
+  { it with pos := if 0 < it.keys.length then .at 0 else .after }
+
+def SIter.next (it : SIter) : SIter :=
+  match it.pos with
+  | .unpos => it.first
+  | .before => it.first
+  | .at i => { it with pos := if i + 1 < it.keys.length then .at (i + 1) else .after }
+  | .after => it
+
+def SIter.prev (it : SIter) : SIter :=
+  match it.pos with
+  | .unpos => it.first
+  | .before => it
+  | .at 0 => { it with pos := .before }
+  | .at (i + 1) => { it with pos := .at i }
+  | .after => { it with pos := if 0 < it.keys.length then .at (it.keys.length - 1) else .before }
+
+def SIter.seek (it : SIter) (t : Key) : SIter :=
+  let j := seekIdx t it.keys
+  { it with pos := if j < it.keys.length then .at j else .after }
+
+def specImpl : Impl SBatch SIter where
+  bempty := ⟨[], 0⟩
+  bput b k v := ⟨b.log ++ [.put k v], b.size + k.length + v.length⟩
+  bdel b k := ⟨b.log ++ [.del k], b.size + k.length⟩
+  bdelRange _ b s e := ⟨b.log ++ [.delRange s e], b.size⟩
+  bget d b k := (applyLog d b.log).get k
+  bflush d b := applyLog d b.log
+  bsize b := b.size
+  imk d p u := ⟨d.filter (fun x => specBound p u x.1), .unpos⟩
+  ifirst it := it.first.ret
+  inext it := it.next.ret
+  iprev it := it.prev.ret
+  iseek it t := (it.seek t).ret
+  icur it := it.cur
+  invalidValue := .vnil
+
+/-! ## Mem: transcription of db/memory -/
+
+/-- `keyValue` of db/memory/batch.go. -/
+structure MWrite where
+  key : Key
+  value : Val
+  delete : Bool
+  deriving DecidableEq, Repr
+
+/-- `batch` of db/memory/batch.go (`db` pointer left out: the store content is passed in). -/
+structure MBatch where
+  writes : List MWrite
+  writeMap : SMap MWrite
+  size : Nat
+  deriving Repr
+
+def MBatch.put (b : MBatch) (k : Key) (v : Val) : MBatch :=
+  let kv : MWrite := ⟨k, v, false⟩
+  ⟨b.writes ++ [kv], b.writeMap.put k kv, b.size + k.length + v.length⟩
+
+def MBatch.del (b : MBatch) (k : Key) : MBatch :=
+  let kv : MWrite := ⟨k, [], true⟩
+  ⟨b.writes ++ [kv], b.writeMap.put k kv, b.size + k.length⟩
+
+/-- `batch.Get`/`batch.Has`: the write map first, then the store. -/
+def MBatch.get (d : KV) (b : MBatch) (k : Key) : Option Val :=
+  match b.writeMap.get k with
+  | some w => if w.delete then none else some w.value
+  | none => d.get k
+
+def MWrite.apply (d : KV) (w : MWrite) : KV :=
+  if w.delete then d.del w.key else d.put w.key w.value
+
+/-- the loop of `batch.Write` -/
+def MBatch.flush (d : KV) (b : MBatch) : KV := b.writes.foldl MWrite.apply d
+
+/-- `iterator` of db/memory/iterator.go (`keys`/`values` zipped). `positioned` exists only in the
+repaired variant (`cfg.prevFix`); it is maintained but never read otherwise. -/
+structure MIter where
+  keys : KV
+  cur : Int
+  positioned : Bool
+  deriving Repr
+
+def MIter.valid (it : MIter) : Bool := 0 ≤ it.cur && it.cur < it.keys.length
+
+def MIter.kv (it : MIter) : Option (Key × Val) :=
+  if it.valid then it.keys[it.cur.toNat]? else none
+
+def MIter.first (it : MIter) : MIter × Bool :=
+  let it' : MIter := { it with cur := 0, positioned := true }
+  (it', it'.valid)
+
+def MIter.prev (cfg : Cfg) (it : MIter) : MIter × Bool :=
+  if cfg.prevFix then
+    if !it.positioned then it.first
+    else if it.cur ≤ 0 then ({ it with cur := -1 }, false)
+    else ({ it with cur := it.cur - 1 }, true)
+  else
+    if it.cur == 0 then ({ it with cur := -1, positioned := true }, false)
+    else if it.cur == -1 then it.first
+    else ({ it with cur := it.cur - 1, positioned := true }, true)
+
+def MIter.next (cfg : Cfg) (it : MIter) : MIter × Bool :=
+  let c : Int := if cfg.nextClamp && !(it.cur < it.keys.length) then it.cur else it.cur + 1
+  let it' : MIter := { it with cur := c, positioned := true }
+  (it', it'.valid)
+
+def MIter.seek (it : MIter) (t : Key) : MIter × Bool :=
+  let j := seekIdx t it.keys
+  ({ it with cur := j, positioned := true }, decide (j < it.keys.length))
+
+def MIter.mk' (cfg : Cfg) (d : KV) (p : Key) (wub : Bool) : MIter :=
+  ⟨d.filter (fun x => memBound cfg p wub x.1), -1, false⟩
+
+/-- the loop of `batch.DeleteRange`: `for ok := it.Seek(start); ok; ok = it.Next()` -/
+def memDelRangeLoop (cfg : Cfg) (e : Key) : Nat → MIter → Bool → MBatch → MBatch
+  | 0, _, _, b => b
+  | fuel + 1, it, ok, b =>
+    if ok then
+      match it.kv with
+      | some (k, _) =>
+        if lexLe e k then b
+        else
+          let r := it.next cfg
+          memDelRangeLoop cfg e fuel r.1 r.2 (b.del k)
+      | none => b
+    else b
+
+/-- `batch.DeleteRange`: iterate over a flushed copy (`b.NewIterator(nil, false)`), seek to `start`,
+stop at `end`, record a `Delete` per key found — i.e. materialised at call time. -/
+def MBatch.delRange (cfg : Cfg) (d : KV) (b : MBatch) (s e : Key) : MBatch :=
+  let content := b.flush d
+  let it := MIter.mk' cfg content [] false
+  let r := it.seek s
+  memDelRangeLoop cfg e (content.length + 1) r.1 r.2 b
+
+def memImpl (cfg : Cfg) : Impl MBatch MIter where
+  bempty := ⟨[], [], 0⟩
+  bput := MBatch.put
+  bdel := MBatch.del
+  bdelRange := MBatch.delRange cfg
+  bget := MBatch.get
+  bflush := MBatch.flush
+  bsize b := b.size
+  imk := MIter.mk' cfg
+  ifirst it := it.first
+  inext := MIter.next cfg
+  iprev := MIter.prev cfg
+  iseek := MIter.seek
+  icur := MIter.kv
+  invalidValue := .errInvalid
+
+/-! ## Worlds and operations -/
+
+inductive Src
+  | db | batch (n : Nat) | snap (n : Nat)
+  deriving DecidableEq, Repr
+
+/-- Calls made inside an `Update`/`Write` callback. -/
+inductive BOp
+  | put (k : Key) (v : Val) | del (k : Key) | delRange (s e : Key)
+  | get (k : Key) (fail : Bool) | has (k : Key) | scan (p : Key) (u : Bool)
+  deriving DecidableEq, Repr
+
+inductive Op
+  | put (k : Key) (v : Val) | del (k : Key) | delRange (s e : Key)
+  | get (src : Src) (k : Key) (fail : Bool) | has (src : Src) (k : Key)
+  | iter (src : Src) (p : Key) (u : Bool) | scan (src : Src) (p : Key) (u : Bool)
+  | newBatch (idx : Bool)
+  | bput (b : Nat) (k : Key) (v : Val) | bdel (b : Nat) (k : Key) | bdelRange (b : Nat) (s e : Key)
+  | bsize (b : Nat) | bwrite (b : Nat) | bclose (b : Nat)
+  | snap | sclose (s : Nat)
+  | first (i : Nat) | next (i : Nat) | prev (i : Nat) | seek (i : Nat) (t : Key)
+  | value (i : Nat) | iclose (i : Nat)
+  | update (idx fail : Bool) (ops : List BOp)
+  | close
+  deriving DecidableEq, Repr
+
+/-- One backend while a sequence runs. Handle tables are total functions; `none` = closed or never
+allocated. Iterators distinguish "no such handle" (`none`) from "closed" (`some none`). -/
+structure World (B I : Type) where
+  db : Option KV
+  batches : Nat → Option (B × Bool)
+  nb : Nat
+  snaps : Nat → Option KV
+  ns : Nat
+  iters : Nat → Option (Option I)
+  ni : Nat
+  /-- where iterator `i` was created from (ghost: only the contract predicate reads it) -/
+  iorigin : Nat → Src
+
+def World.init {B I : Type} : World B I := ⟨some [], fun _ => none, 0, fun _ => none, 0, fun _ => none, 0, fun _ => .db⟩
+
+def upd {α : Type} (f : Nat → α) (i : Nat) (x : α) : Nat → α := fun j => if j = i then x else f j
+
+def readGet (o : Option Val) (fail : Bool) : ROut :=
+  match o with
+  | none => .notfound
+  | some v => if fail then .errCb else .val v
+
+section
+variable {B I : Type} (M : Impl B I)
+
+def scanLoop : Nat → I → Bool → List (Key × Val)
+  | 0, _, _ => []
+  | fuel + 1, it, ok =>
+    if ok then
+      match M.icur it with
+      | some kv =>
+        let r := M.inext it
+        kv :: scanLoop fuel r.1 r.2
+      | none => []
+    else []
+
+/-- `it := NewIterator(p, u); for ok := it.First(); ok; ok = it.Next() { collect }; it.Close()` -/
+def scan (content : KV) (p : Key) (u : Bool) : List (Key × Val) :=
+  let r := M.ifirst (M.imk content p u)
+  scanLoop M (content.length + 1) r.1 r.2
+
+/-- what a reader sees: `.inl` = error, `.inr (get, content for iteration)` -/
+def World.read (w : World B I) : Src → Sum ROut ((Key → Option Val) × KV)
+  | .db =>
+    match w.db with
+    | none => .inl .errClosed
+    | some d => .inr (d.get, d)
+  | .snap n =>
+    match w.snaps n with
+    | none => .inl .badHandle
+    | some d => .inr (d.get, d)
+  | .batch n =>
+    match w.batches n with
+    | some (b, true) => .inr (M.bget (w.db.getD []) b, M.bflush (w.db.getD []) b)
+    | some (_, false) => .inl .badHandle
+    | none => .inl .errClosed
+
+def runInner (base : KV) (idx : Bool) : List BOp → B → B × List ROut
+  | [], b => (b, [])
+  | op :: rest, b =>
+    let (b', o) : B × ROut :=
+      match op with
+      | .put k v => (M.bput b k v, .ok)
+      | .del k => (M.bdel b k, .ok)
+      | .delRange s e => (M.bdelRange base b s e, .ok)
+      | .get k fail => (b, if idx then readGet (M.bget base b k) fail else .badOp)
+      | .has k => (b, if idx then .bool (M.bget base b k).isSome else .badOp)
+      | .scan p u => (b, if idx then .list (scan M (M.bflush base b) p u) else .badOp)
+    let r := runInner base idx rest b'
+    (r.1, o :: r.2)
+
+def movePos (w : World B I) (i : Nat) (f : I → I × Bool) : World B I × Out :=
+  match w.iters i with
+  | none => (w, .r .badHandle)
+  | some none => (w, .r .panic)
+  | some (some it) =>
+    let r := f it
+    ({ w with iters := upd w.iters i (some (some r.1)) }, .pos r.2 (M.icur r.1))
+
+def step (w : World B I) : Op → World B I × Out
+  | .put k v =>
+    match w.db with
+    | none => (w, .r .errClosed)
+    | some d => ({ w with db := some (d.put k v) }, .r .ok)
+  | .del k =>
+    match w.db with
+    | none => (w, .r .errClosed)
+    | some d => ({ w with db := some (d.del k) }, .r .ok)
+  | .delRange s e =>
+    match w.db with
+    | none => (w, .r .errClosed)
+    | some d => ({ w with db := some (d.delRange s e) }, .r .ok)
+  | .get src k fail =>
+    match w.read M src with
+    | .inl e => (w, .r e)
+    | .inr (g, _) => (w, .r (readGet (g k) fail))
+  | .has src k =>
+    match w.read M src with
+    | .inl e => (w, .r e)
+    | .inr (g, _) => (w, .r (.bool (g k).isSome))
+  | .iter src p u =>
+    match w.read M src with
+    | .inl e => ({ w with ni := w.ni + 1 }, .r e)
+    | .inr (_, c) =>
+      ({ w with iters := upd w.iters w.ni (some (some (M.imk c p u))), ni := w.ni + 1,
+                iorigin := upd w.iorigin w.ni src }, .handle w.ni)
+  | .scan src p u =>
+    match w.read M src with
+    | .inl e => (w, .r e)
+    | .inr (_, c) => (w, .r (.list (scan M c p u)))
+  | .newBatch idx =>
+    ({ w with batches := upd w.batches w.nb (some (M.bempty, idx)), nb := w.nb + 1 }, .handle w.nb)
+  | .bput b k v =>
+    match w.batches b with
+    | none => (w, .r .errClosed)
+    | some (x, idx) => ({ w with batches := upd w.batches b (some (M.bput x k v, idx)) }, .r .ok)
+  | .bdel b k =>
+    match w.batches b with
+    | none => (w, .r .errClosed)
+    | some (x, idx) => ({ w with batches := upd w.batches b (some (M.bdel x k, idx)) }, .r .ok)
+  | .bdelRange b s e =>
+    match w.batches b with
+    | none => (w, .r .errClosed)
+    | some (x, idx) =>
+      ({ w with batches := upd w.batches b (some (M.bdelRange (w.db.getD []) x s e, idx)) }, .r .ok)
+  | .bsize b =>
+    match w.batches b with
+    | none => (w, .size 0)
+    | some (x, _) => (w, .size (M.bsize x))
+  | .bwrite b =>
+    match w.batches b with
+    | none => (w, .r .errClosed)
+    | some (x, _) =>
+      match w.db with
+      | none => (w, .r .errClosed)
+      | some d => ({ w with db := some (M.bflush d x), batches := upd w.batches b none }, .r .ok)
+  | .bclose b =>
+    match w.batches b with
+    | none => (w, .r .errClosed)
+    | some _ => ({ w with batches := upd w.batches b none }, .r .ok)
+  | .snap =>
+    match w.db with
+    | none => (w, .r .panic)
+    | some d => ({ w with snaps := upd w.snaps w.ns (some d), ns := w.ns + 1 }, .handle w.ns)
+  | .sclose s =>
+    match w.snaps s with
+    | none => (w, .r .badHandle)
+    | some _ => ({ w with snaps := upd w.snaps s none }, .r .ok)
+  | .first i => movePos M w i M.ifirst
+  | .next i => movePos M w i M.inext
+  | .prev i => movePos M w i M.iprev
+  | .seek i t => movePos M w i (fun it => M.iseek it t)
+  | .value i =>
+    match w.iters i with
+    | none => (w, .r .badHandle)
+    | some none => (w, .r .errClosed)
+    | some (some it) =>
+      match M.icur it with
+      | some (_, v) => (w, .r (.val v))
+      | none => (w, .r M.invalidValue)
+  | .iclose i =>
+    match w.iters i with
+    | none => (w, .r .badHandle)
+    | some none => (w, .r .errClosed)
+    | some (some _) => ({ w with iters := upd w.iters i (some none) }, .r .ok)
+  | .update idx fail ops =>
+    match w.db with
+    | none => (w, .upd [] .errClosed)
+    | some d =>
+      let r := runInner M d idx ops M.bempty
+      if fail then (w, .upd r.2 .errCb)
+      else ({ w with db := some (M.bflush d r.1) }, .upd r.2 .ok)
+  | .close => ({ w with db := none }, .r .ok)
+
+/-- outputs of a whole sequence -/
+def run : World B I → List Op → List Out
+  | _, [] => []
+  | w, op :: rest =>
+    let r := step M w op
+    r.2 :: run r.1 rest
+
+/-- final state of a whole sequence -/
+def exec : World B I → List Op → World B I
+  | w, [] => w
+  | w, op :: rest => exec (step M w op).1 rest
+
+end
+
+/-! ## The contract boundary
+
+`stepOK cfg w op` is evaluated on the *spec* world reached so far; `inContract cfg ops` holds when
+every step of the sequence passes. Outside of it are (a) uses the interface documentation rules
+out, and (b) for each `Cfg` flag that is `false`, the inputs on which db/memory as found leaves the
+contract (each is a recorded finding with a witness in `Props`). -/
+
+def noRange (b : SBatch) : Bool := b.log.all (fun o => !o.isRange)
+
+/-- every live batch other than `except` has no `DeleteRange` pending -/
+def othersNoRange (w : World SBatch SIter) (except : Option Nat) : Bool :=
+  (List.range w.nb).all fun n =>
+    if some n = except then true
+    else match w.batches n with
+      | some (b, _) => noRange b
+      | none => true
+
+/-- no live iterator was created from `src` (Pebble: an iterator must be closed before the batch
+or snapshot it reads from) -/
+def noLiveIterFrom (w : World SBatch SIter) (src : Src) : Bool :=
+  (List.range w.ni).all fun n =>
+    match w.iters n with
+    | some (some _) => w.iorigin n != src
+    | _ => true
+
+def noLiveReaders (w : World SBatch SIter) : Bool :=
+  (List.range w.ni).all (fun n => match w.iters n with | some (some _) => false | _ => true) &&
+  (List.range w.ns).all (fun n => (w.snaps n).isNone)
+
+/-- arguments of `NewIterator` on which db/memory (variant `cfg`) and the contract agree -/
+def iterArgsOK (cfg : Cfg) (p : Key) (u : Bool) : Bool :=
+  (cfg.lowerBoundFix || u || p == []) &&
+  (cfg.nilUbFix || !u || (upperBound p).isSome)
+
+def innerOK (cfg : Cfg) : BOp → Bool
+  | .scan p u => iterArgsOK cfg p u
+  | _ => true
+
+def srcOpen (w : World SBatch SIter) : Src → Bool
+  | .db => true
+  | _ => w.db.isSome
+
+def stepOK (cfg : Cfg) (w : World SBatch SIter) : Op → Bool
+  | .put _ _ | .del _ | .delRange _ _ => othersNoRange w none
+  | .get src _ _ | .has src _ => srcOpen w src
+  | .iter src p u | .scan src p u => srcOpen w src && iterArgsOK cfg p u
+  | .bdelRange _ _ _ => w.db.isSome
+  | .bsize b => match w.batches b with | some (x, _) => noRange x | none => true
+  | .bwrite b => othersNoRange w (some b) && noLiveIterFrom w (.batch b)
+  | .bclose b => noLiveIterFrom w (.batch b)
+  | .first _ | .seek _ _ | .iclose _ => w.db.isSome
+  | .next i =>
+    w.db.isSome &&
+    match w.iters i with
+    | some (some it) => cfg.nextClamp || it.pos != .after
+    | _ => true
+  | .prev i =>
+    w.db.isSome &&
+    match w.iters i with
+    | some (some it) => cfg.prevFix || it.pos != .before
+    | _ => true
+  | .value i =>
+    w.db.isSome &&
+    match w.iters i with
+    | some (some it) => it.cur.isSome
+    | _ => true
+  | .update _ fail ops => (fail || othersNoRange w none) && ops.all (innerOK cfg)
+  | .close => noLiveReaders w
+  | .sclose s => w.db.isSome && noLiveIterFrom w (.snap s)
+  | _ => true
+
+def inContract (cfg : Cfg) : World SBatch SIter → List Op → Bool
+  | _, [] => true
+  | w, op :: rest => stepOK cfg w op && inContract cfg (step specImpl w op).1 rest
 
 end Juno.C15
